@@ -93,7 +93,7 @@ Proof.
   - apply wval_inv in H as (r0 & H). eapply C05_new_model; eauto.
   - apply wval_inv in H as (r0 & H). eapply Inv05_sv; [eapply m_create_file_sv; eauto|exact HI5].
   - apply wunit_inv in H as (r0 & H).
-    destruct (C45_remove_file T check_fn TK LATEST true _ _ _ _ _ HF HI4 (fun _ => HI5) HK4 HP H) as (_ & _ & H5). apply H5. reflexivity.
+    destruct (C45_remove_file T check_fn TK LATEST true _ _ _ _ _ HF HI4 (fun _ => HI5) HK4 H) as (_ & _ & H5). apply H5. reflexivity.
   - apply wunit_inv in H as (r0 & H). eapply Inv05_sv; [eapply e_add_to_file_sv; eauto|exact HI5].
   - apply wunit_inv in H as (r0 & H).
     destruct (C45_remove_from_file T check_fn TK LATEST true _ _ _ _ _ HF HI4 (fun _ => HI5) HK4 H) as (_ & _ & H5). apply H5. reflexivity.
